@@ -62,7 +62,7 @@ var (
 	wildPats   = []string{"*.test", "*.a.test", "*.x.a.test", "*.b.test", "*.y.x.a.test"}
 	extraNames = []string{"q.a.test", "p.q.a.test", "q.x.a.test", "q.b.test", "q.test", "test", "other.example", "up.example"}
 	addrs4     = []string{"10.0.0.1", "10.0.0.2", "10.0.0.3"}
-	addrs6     = []string{"fd00::1", "fd00::2"}
+	addrs6     = []string{"fd00::1", "fd00::2", "fd00::1", "fd00::2", "::ffff:10.0.0.1"}
 	qtypes     = []uint16{dns.TypeA, dns.TypeA, dns.TypeA, dns.TypeAAAA, dns.TypeAAAA, dns.TypeTXT, dns.TypeHTTPS}
 	protos     = []string{"udp", "udp", "udp", "tcp", "tls", "https", "quic", "dnscrypt"}
 	faultKinds = []string{"upstream_error", "upstream_timeout", "upstream_servfail", "upstream_slow"}
@@ -91,7 +91,12 @@ func genAnswer(t *rapid.T, pat string) string {
 	case k < 36:
 		return rapid.SampledFrom(addrs6).Draw(t, "v6")
 	case k < 72:
-		return rapid.SampledFrom(exactNames).Draw(t, "cname")
+		n := rapid.SampledFrom(exactNames).Draw(t, "cname")
+		if rapid.IntRange(0, 24).Draw(t, "cname_upper") == 0 {
+			// Host names are case-insensitive; the table keeps answers as typed.
+			n = strings.ToUpper(n[:1]) + n[1:]
+		}
+		return n
 	case k < 79:
 		return rapid.SampledFrom(extraNames).Draw(t, "cname_extra")
 	case k < 86:
@@ -294,7 +299,8 @@ func doomed(c *kernel.Ctx, class, msg string) {
 		fmt.Printf("REPLAY-MSG %s\n", strings.ReplaceAll(msg, "\n", "\n  "))
 		os.Exit(1)
 	}
-	fmt.Printf("C06-WATCHDOG class=%s %s\n", class, msg)
+	// The driver quotes the first "panic: " line of a dead worker's log.
+	fmt.Printf("panic: C06 watchdog: %s: %s\n", class, msg)
 	os.Exit(3)
 }
 
@@ -806,6 +812,10 @@ func (r *runner) query(op Op) error {
 		return nil
 	}
 	err := r.checkSpecified(qc)
+	if v, ok := err.(*kernel.Violation); ok && ex.caseFold {
+		v.Msg = "a CNAME answer on the path is spelled with upper-case letters and is compared case-sensitively [" + v.Class + "] " + v.Msg
+		v.Class = "cname-answer-case-sensitive"
+	}
 	if v, ok := err.(*kernel.Violation); ok {
 		// Whatever was exchanged may sit in the cache now.
 		for _, e := range rep.Exchanges {
@@ -1098,7 +1108,7 @@ var Prop = &kernel.Property{
 	FaultKinds: []string{"upstream_error", "upstream_timeout", "upstream_servfail", "upstream_slow", "live_table_change"},
 	ProbeNames: []string{oNotMatched, oPassExc, oLocal, oEmpty, oCnameUp, oUnspecified, "matched_query",
 		"cname_beats_address", "exact_shadows_wildcard", "specific_wildcard_wins", "wildcard_cname", "wildcard_address", "self_reference", "family_exception",
-		"wildcard_with_other_family_exception", "cycle", "cycle_through_qname", "cycle_not_through_qname", "chain_2plus", "chain_4plus", "local_via_chain", "empty_via_chain", "exception_at_later_hop",
+		"wildcard_with_other_family_exception", "cname_answer_mixed_case", "cycle", "cycle_through_qname", "cycle_not_through_qname", "chain_2plus", "chain_4plus", "chain_through_wildcard", "local_via_chain", "empty_via_chain", "exception_at_later_hop",
 		"unspecified_multi_target", "unspecified_wildcard_mixed_kinds", "unspecified_exc_and_value", "unspecified_cross_family",
 		"fault_on_cname_leg", "upstream_failed_leg", "served_from_cache", "duplicate_entries",
 		"table_add", "table_delete", "table_update", "delete_missing", "update_missing", "delete_removed_duplicates"},
